@@ -18,8 +18,8 @@ META = {
              "non-trivial = >= 2 QEC cycles (or QUTRIT calibration) and a non-default setting"),
     "assumptions": ["channel match m(a,b) from the statement (same qubit and same channel or one is ALL); zero-length operations only count against barriers"],
     "floors": {
-        "quick": {"circuits_swept": 3000, "adjacent_pairs_compared": 100000, "barrier_neighbours_compared": 20000, "readout_lt_microwave": 300, "calibration_circuits": 200, "operations_observed": 200000},
-        "thorough": {"circuits_swept": 30000, "adjacent_pairs_compared": 1000000, "barrier_neighbours_compared": 200000, "readout_lt_microwave": 3000, "calibration_circuits": 2000, "operations_observed": 2000000},
+        "quick": {"circuits_swept": 3000, "circuits_reread_under_other_settings": 1000, "adjacent_pairs_compared": 100000, "barrier_neighbours_compared": 20000, "readout_lt_microwave": 300, "calibration_circuits": 200, "operations_observed": 200000},
+        "thorough": {"circuits_swept": 30000, "circuits_reread_under_other_settings": 10000, "adjacent_pairs_compared": 1000000, "barrier_neighbours_compared": 200000, "readout_lt_microwave": 3000, "calibration_circuits": 2000, "operations_observed": 2000000},
     },
 }
 
@@ -36,6 +36,8 @@ def gen_input(rng: random.Random) -> Dict[str, Any]:
     else:
         inp = libgen.gen_repcode_input(rng, max_distance=4, max_cycles=6)
     inp["glob"] = libgen.gen_global_settings(rng, default=rng.random() < 0.15)
+    if rng.random() < 0.5:
+        inp["glob_again"] = [libgen.gen_global_settings(rng, default=rng.random() < 0.2) for _ in range(rng.randint(1, 2))]
     return inp
 
 
@@ -134,6 +136,12 @@ def check_input(inp: Dict[str, Any], acc: Acc):
         check_circuit(circuit, acc, case, "as constructed", ctor)
         modified = construct(inp).apply_modifiers()
         check_circuit(modified, acc, case, "unrolled", ctor)
+    # the same circuit objects under other settings (durations are read at query time, not at construction time)
+    for k, g2 in enumerate(inp.get("glob_again") or []):
+        with libgen.override(g2):
+            check_circuit(circuit, acc, case, f"as constructed, re-read under settings #{k + 2}", ctor)
+            check_circuit(modified, acc, case, f"unrolled, re-read under settings #{k + 2}", ctor)
+            acc.count("circuits_reread_under_other_settings", 2)
     memo = memo_shadow.drain()
     if memo["discrepancy_count"]:
         acc.finding("stale-memo/monitor", "a time query answered from the process-wide memo differs from the memo-free evaluation", case, memo["discrepancies"][:3])
